@@ -29,7 +29,7 @@ def random_props(rng, ncomp, maxlen=8):
     return out
 
 
-def build_world_cases(rng, wid, wfile, files, ctx, pts3, cross, ncomp, others, ncalls):
+def build_world_cases(rng, wid, wfile, files, ctx, pts3, cross, ncomp, others, ncalls, sticky=0.0):
     """-> (history case, dictionary case, plan) ; plan lists per history command what to check"""
     hist = core.Case('h%s' % wid, files=files)
     hist.add('world', 1, 1, 0, 0, '-', wfile)
@@ -57,6 +57,11 @@ def build_world_cases(rng, wid, wfile, files, ctx, pts3, cross, ncomp, others, n
             plan.append({'kind': kind, 'q': q, 'props': props, 'idx': idx, 'repeat_of': idx0})
             continue
         q = rng.choice(queries)
+        if sticky and done and rng.random() < sticky:
+            # stay at the depth of the previous call (another position): consecutive evaluations that agree in part of their arguments
+            same = [x for x in queries if x[2] == done[-1][1][2] and x != done[-1][1]]
+            if same:
+                q = rng.choice(same)
         if r < 0.75:
             props = random_props(rng, ncomp)
             kind = 'q'
@@ -141,14 +146,72 @@ def main(tier, seed, replay):
     for i in range(n_gen):
         wid += 1
         wrng = random.Random(rng.getrandbits(48))
-        w = wg.gen_world(wrng, {'nfeatures': (1, 5), 'force_surface': (wrng.random() < 0.33), 'cross_section': (wrng.random() < 0.5)})
+        layered = i % 7 == 3
+        wg.EXTRA['water'] = 0.4 if i % 3 == 0 else 0.0
+        try:
+            if layered:
+                # the layered-water family: one slab (or oceanic plate) with 2-4 'tian water content' layers of different lithologies
+                # (disjoint or overlapping), mostly a uniform temperature, so that consecutive evaluations meet identical clamped
+                # pressures and temperatures in different layers: anything remembered between calls under a partial key shows
+                w = wg.gen_world(wrng, {'nfeatures': 1, 'types': ['subducting plate', 'subducting plate', 'subducting plate', 'oceanic plate'], 'force_surface': False, 'cross_section': (wrng.random() < 0.3),
+                                        'sections': False, 'segment_models': False, 'p_temperature': 1.0, 'p_composition': 0.0, 'p_grains': 0.2, 'p_velocity': 0.2,
+                                        'allow_temperature': ['uniform', 'adiabatic']})
+                f0 = w['json']['features'][0]
+                t0 = w['truth']['features'][0]
+                liths = ['sediment', 'MORB', 'gabbro', 'peridotite']
+                wrng.shuffle(liths)
+                nl = wrng.randint(2, 4)
+                span = t0['thickness'] if f0['model'] == 'subducting plate' else min(t0['d1'], t0['d0'] + 3e5) - t0['d0']
+                cuts = sorted(wrng.uniform(0.05, 0.95) for _ in range(nl - 1))
+                edges = [0.0] + cuts + [1.0]
+                models = []
+                rho = wg.num(wrng, 2800, 3400) if wrng.random() < 0.7 else None      # mostly one density for all layers: same depth, same pressure
+                for k in range(nl):
+                    lo, hi = edges[k], edges[k + 1]
+                    if wrng.random() < 0.3:
+                        hi = min(1.0, hi + 0.3)          # overlapping layers
+                    m = {'model': 'tian water content', 'compositions': [wrng.randrange(w['truth']['ncomp'])], 'lithology': liths[k], 'initial water content': wg.num(wrng, 0.5, 5.0),
+                         'cutoff pressure': {'sediment': 1, 'MORB': 16, 'gabbro': 26, 'peridotite': 10}[liths[k]]}
+                    if f0['model'] == 'subducting plate':
+                        m['density'] = rho if rho is not None else wg.num(wrng, 2800, 3400)
+                        m['min distance slab top'] = wg.R(lo * span)
+                        m['max distance slab top'] = wg.R(hi * span)
+                    else:
+                        m['min depth'] = wg.R(t0['d0'] + lo * span)
+                        m['max depth'] = wg.R(t0['d0'] + hi * span)
+                    if wrng.random() < 0.3:
+                        m['operation'] = wrng.choice(['replace', 'replace defined only', 'add'])
+                    models.append(m)
+                f0['composition models'] = models
+            else:
+                w = wg.gen_world(wrng, {'nfeatures': (1, 5), 'force_surface': (wrng.random() < 0.33), 'cross_section': (wrng.random() < 0.5)})
+        finally:
+            wg.EXTRA['water'] = 0.0
         fn = 'g%d.wb' % wid
         ctx = w['truth']['ctx']
-        pts = wg.sample_points(wrng, w, 14)
+        pts = wg.sample_points(wrng, w, 14, p_inside=0.9 if layered else 0.6)
+        # siblings: points that share the depth (another position) or the position (another depth) with an earlier point, and shallow
+        # depths where depth-derived quantities are clamped to one value: partial-key collisions for anything that remembers a result
+        sib = []
+        for (sx, sy, d) in pts[:6]:
+            o = wrng.choice(pts)
+            sib.append((o[0], o[1], d))
+            sib.append((sx, sy, wrng.choice([d * 0.5, d + 2.0e4, 5.0e3, 1.0e4])))
+            if layered and w['truth']['features'][0]['type'] == 'subducting plate':
+                # the same depth, displaced towards / away from the dip point: another distance below the slab top, i.e. another layer
+                dp = w['truth']['features'][0]['dip']
+                ux, uy = dp[0] - sx, dp[1] - sy
+                if ctx.sph:
+                    ux = ((ux + 180.0) % 360.0) - 180.0
+                L = (ux * ux + uy * uy) ** 0.5 or 1.0
+                for _ in range(3):
+                    step = wrng.choice([-1, 1]) * wrng.uniform(5e3, 6e4) / ctx.unit()
+                    sib.append((wg.wrap_lon(ctx, sx + step * ux / L), sy + step * uy / L, d))
+        pts += sib
         if w['truth']['globals']['force']:
             pts += [(p[0], p[1], 0.0) for p in pts[:4]]
         jobs.append(build_world_cases(wrng, wid, core.workfile(PID, fn), {fn: wg.dumps(w['json'])}, ctx, pts, w['truth']['cross'], w['truth']['ncomp'],
-                                      rng.sample(other_pool, rng.choice([0, 0, 1, 2])), rng.randint(40, 120) * scale) + (fn,))
+                                      rng.sample(other_pool, rng.choice([0, 0, 1, 2])), rng.randint(40, 120) * scale, sticky=0.5 if layered else 0.15) + (fn,))
     cases = []
     for j in jobs:
         cases.append(j[0])
